@@ -155,6 +155,21 @@ pub fn gen_label_item(g: &mut Gen) -> Item {
     }
 }
 
+/// A *valid* item of some structure presented in a wrapping that is not the structure itself:
+/// tag 24 / another tag over its encoding as a byte string, the bare byte string, a tag directly
+/// around it, or a one-element array holding it.
+pub fn gen_embedded(g: &mut Gen, valid: Item) -> Item {
+    let enc = crate::cbor::encode(&valid);
+    match g.below(6) {
+        0 => Item::Tag(24, Box::new(Item::Bytes(enc))),
+        1 => Item::Bytes(enc),
+        2 => Item::Tag(*g.pick(&[24u64, 55799, 61, 0, 18]), Box::new(valid)),
+        3 => Item::Array(vec![valid]),
+        4 => Item::Tag(*g.pick(&[16u64, 17, 18, 96, 97, 98, 63]), Box::new(Item::Bytes(enc))),
+        _ => Item::Text(crate::cbor::hex(&enc)),
+    }
+}
+
 /// A key that is not a label: wrong kind, or an integer outside the 64-bit signed range.
 pub fn gen_non_label(g: &mut Gen) -> Item {
     match g.below(9) {
@@ -305,6 +320,17 @@ fn gen_content_type(g: &mut Gen, f: &mut Faults) -> Item {
             _ => Item::Text(format!("{}a/b{}", g.pick(&["\t", "\u{3000}", "\u{85}", ""]), g.pick(&["\u{2028}", "\u{1680}", " "]))),
         };
     }
+    if g.ratio(1, 8) {
+        // free composition of media-type-like pieces: may or may not be well-formed (the model decides)
+        const PIECES: &[&str] = &["a", "text", "application", "/", "/", "x-é", "café", "json", ";", "; ", "p=", "\"a/b\"", "+", ".", "中", " ", "😀"];
+        let n = 1 + g.below(6);
+        let mut t = String::new();
+        for _ in 0..n {
+            let piece: &&str = g.pick(PIECES);
+            t.push_str(piece);
+        }
+        return Item::Text(t);
+    }
     if g.bool() {
         Item::Int(pick_registered(g, reg::COAP_CONTENT_FORMAT) as i128)
     } else if g.ratio(1, 3) {
@@ -369,6 +395,11 @@ fn gen_counter_sig(g: &mut Gen, f: &mut Faults, depth: usize) -> Item {
             }
         };
     }
+    if g.ratio(1, 30) {
+        // rarely: a long array of counter-signatures, the later ones possibly counter-signed themselves
+        let n = 6 + g.below(8);
+        return Item::Array((0..n).map(|i| gen_msg(g, Kind::Signature, &mut Faults::none(), if i >= 5 { depth.min(1) } else { 0 })).collect());
+    }
     let n = g.weighted(&[5, 2, 1]);
     if n == 0 {
         gen_msg(g, Kind::Signature, f, depth)
@@ -422,6 +453,10 @@ fn label_eq(a: &Item, b: &Item) -> bool {
 /// A header map.  `depth` bounds counter-signature nesting.
 pub fn gen_header(g: &mut Gen, f: &mut Faults, depth: usize) -> Item {
     if f.take_odds(g, "header-not-map", 40) {
+        if g.bool() {
+            let inner = gen_header(g, &mut Faults::none(), 0);
+            return gen_embedded(g, inner);
+        }
         return gen_wrong_kind(g, &["map"]);
     }
     let mut entries: Vec<(Item, Item)> = vec![];
@@ -618,6 +653,12 @@ fn gen_msg_valid_array(g: &mut Gen, kind: Kind, depth: usize) -> Vec<Item> {
 /// A message array of `kind`.
 pub fn gen_msg(g: &mut Gen, kind: Kind, f: &mut Faults, depth: usize) -> Item {
     if f.take_odds(g, "msg-not-array", 30) {
+        if g.bool() {
+            let inner = Item::Array(gen_msg_slots(g, kind, &mut Faults::none(), 0));
+            let e = gen_embedded(g, inner);
+            // (a one-element array holding the message is still an array: keep it — the arity check must reject it)
+            return e;
+        }
         return gen_wrong_kind(g, &["array"]);
     }
     let mut v = gen_msg_slots(g, kind, f, depth);
@@ -634,6 +675,13 @@ pub fn gen_msg(g: &mut Gen, kind: Kind, f: &mut Faults, depth: usize) -> Item {
                     }
                 }
             }
+        }
+    }
+    if f.take_odds(g, "msg-arity-alias", 60) {
+        // a length that aliases the right arity when truncated to 8 or 16 bits
+        let extra = if g.ratio(1, 6) { 65536 } else { 256 * (1 + g.below(2)) };
+        for _ in 0..extra {
+            v.push(Item::Null);
         }
     }
     if f.take(g, "msg-arity") {
@@ -696,6 +744,10 @@ fn gen_key_ops(g: &mut Gen, f: &mut Faults) -> Item {
 
 pub fn gen_key(g: &mut Gen, f: &mut Faults) -> Item {
     if f.take_odds(g, "key-not-map", 30) {
+        if g.bool() {
+            let inner = gen_key(g, &mut Faults::none());
+            return gen_embedded(g, inner);
+        }
         return gen_wrong_kind(g, &["map"]);
     }
     let mut entries: Vec<(Item, Item)> = vec![];
@@ -788,6 +840,10 @@ fn gen_time(g: &mut Gen, f: &mut Faults) -> Item {
 
 pub fn gen_claims(g: &mut Gen, f: &mut Faults) -> Item {
     if f.take_odds(g, "claims-not-map", 30) {
+        if g.bool() {
+            let inner = gen_claims(g, &mut Faults::none());
+            return gen_embedded(g, inner);
+        }
         return gen_wrong_kind(g, &["map"]);
     }
     let mut entries: Vec<(Item, Item)> = vec![];
